@@ -203,7 +203,13 @@ theorem decode_chunks (i : Info) (g : i.Geo) (hf : i.Fits32) (src : Array Byte)
         · exact h
   unfold decodeFrame
   have hl : ¬ ((mkStream (chunksOf i src)).length = 0) := by rw [mkStream_length _ h15]; omega
-  simp only [hl, ↓reduceIte, hph, hcl, ne_eq, not_true_eq_false]
+  have hg : ¬ (i.bitsAllocated = 0 ∨ i.numberOfSegments < 1 ∨ i.numberOfSegments > 15) := by
+    have h1 := g.nseg_pos
+    have h2 := g.nseg_le
+    have hb := g.hba
+    unfold Info.bytesAllocated at hb
+    omega
+  simp only [hl, hg, ↓reduceIte, hph, hcl, ne_eq, not_true_eq_false]
   rw [hcl] at hF
   rw [hF, hFeq]
 
